@@ -292,6 +292,50 @@ def rule_t2(ctx):
                                 "an accepting exit of the VarAssign arm is reachable on the Mutability::Immutable edge", body.term(oks[0])["sp"]))
         if not bad:
             res.ok({"arm": "VarAssign", "verdict": "no accepting exit on the Mutability::Immutable edge"})
+    # every public function is tested for parameters, every private one for being used
+    pf = ctx.find_fn("type_check", "&ast::Program<()>", "check.rs")
+    pbody = ctx.body(pf["id"])
+    for variant, flag_want, test_seg, test_recv in (("PubFnWithoutParams", True, "is_empty", "params"), ("UnusedFn", False, "contains_key", "typed")):
+        sites = [b for b, blk in enumerate(pbody.blocks) for st in blk["stmts"]
+                 if st["k"] == "assign" and st["rv"]["k"] == "aggregate" and st["rv"].get("adt") == "check::TypeErrorEnum" and st["rv"]["variant"] == variant]
+        for sb in sites:
+            loops = [lp for lp in pbody.loops() if sb in lp["body"]]
+            if not loops:
+                res.bad(Finding("T2", pf["id"], "%s not checked per function" % variant, "the error is raised outside the loop over the function definitions", pbody.fn["sp"]))
+                continue
+            lp = min(loops, key=lambda l: len(l["body"]))
+            # the switch on fn_def.is_pub inside this loop
+            pubs = []
+            for x in lp["body"]:
+                tt = pbody.term(x)
+                if tt and tt["k"] == "switch" and tt["discr"]["k"] in ("copy", "move"):
+                    if any(p and p[-1] == "is_pub" for (r, p) in pbody.trace(tt["discr"]["place"])):
+                        pubs.append(x)
+                    else:
+                        for (r, p) in pbody.trace(tt["discr"]["place"], through={}):
+                            if r[0] == "rv" and r[1] == "unop":
+                                stn = pbody.blocks[r[2]]["stmts"][r[3]]
+                                if any(pp and pp[-1] == "is_pub" for (rr, pp) in pbody.trace_operand(stn["rv"]["x"])):
+                                    pubs.append(x)
+            tests = {x for x in lp["body"] if pbody.term(x)["k"] == "call" and mir.last_seg(mir.callee(pbody.term(x)) or "") == test_seg and
+                     any(p and test_recv in p for (r, p) in pbody.trace_operand(pbody.term(x)["args"][0]))}
+            if not pubs or not tests:
+                res.bad(Finding("T2", pf["id"], "%s: no per-function test" % variant, "the loop does not test is_pub / %s" % test_seg, pbody.term(sb)["sp"]))
+                continue
+            # from the first is_pub test, the side that leads to the error site must pass the second test on every
+            # path back to the loop header (i.e. for *every* function of that visibility)
+            ok = True
+            for sw in pubs:
+                side = [s_ for s_ in pbody.succs(sw) if sb in pbody.reachable([s_], blocked={lp["header"]})]
+                for s_ in side:
+                    if pbody.path(s_, [lp["header"]], blocked=tests) is not None and s_ not in tests:
+                        ok = False
+            if ok:
+                res.ok({"rule": variant, "verdict": "every %s function is tested with %s" % ("public" if flag_want else "private", test_seg)})
+            else:
+                res.bad(Finding("T2", pf["id"], "%s is not tested for every function" % variant,
+                                "some %s functions skip the %s test (an extra condition guards it): the rule is not enforced for them" % ("public" if flag_want else "private", test_seg),
+                                pbody.term(sb)["sp"]))
     for (v, (name, self_ty)) in WHOLE:
         f = ctx.find_fn(name, self_ty, "check.rs")
         if v in _constructed(ctx.body(f["id"])):
